@@ -19,6 +19,8 @@ package reflect
 import (
 	"errors"
 	"unsafe"
+
+	"github.com/cloudwego/frugal/internal/defs"
 )
 
 var mapAppendFuncs = map[struct{ k, v ttype }]appendFuncType{}
@@ -29,6 +31,11 @@ func updateMapAppendFunc(t *tType) {
 	}
 
 	f, ok := mapAppendFuncs[struct{ k, v ttype }{k: t.K.T, v: t.V.T}]
+	if t.V.Tag == defs.T_binary {
+		// []byte values are tSTRING on the wire, but a map[K][]byte does not have the
+		// memory layout of the map[K]string the fast paths range over.
+		ok = false
+	}
 	if ok {
 		t.AppendFunc = f
 		return
